@@ -192,7 +192,10 @@ def c18(ctx):
                 argv = [(os.path.join(b, a[1:]) if a[1:] else b) if a.startswith('@') else a for a in c.argv]
                 if not c.allow_xdev and c.meta['cmd'] != 'verify':
                     argv.insert(1, '-x')
+                fd0 = ET.fd_count()
                 out = run_cli(argv, key)
+                if ET.fd_count() > fd0 and out[0] == 'exit':
+                    out = ['exc', 'DescriptorLeak', ET.fd_count() - fd0]
             except Exception as e:
                 out = ['harness-error', repr(e)]
             finally:
